@@ -151,11 +151,15 @@ def run(ctx):
         cls = compare(ctx, cid, FlowCal, raw, delim, supp, explicit_delim=bool(rng.integers(2)), mech='tokenizer-rich')
         ctx.case_done(class_key=('mutated', 'supp' if supp else 'primary', cls), nontrivial=True,
                       distinct_key=core.digest(raw, delim, supp))
-    # ---- (iii) file level ------------------------------------------------------
+    # ---- (iii) file level, with the in-situ monitor on every segment any load parses ----
+    from rv import monitors, suite_workload
+    mon = monitors.Monitors(ctx, FlowCal, tag='file-loads')
+    mon.attach_textseg()
     nfile = 300 if ctx.tier == 'quick' else 20000
     path = os.path.join(ctx.tmpdir, 'c14.fcs')
     cells = [c for c in layouts.lattice() if c[0] != 'FCS2.0']
     for cid, rng in ctx.cases([('file', i) for i in range(nfile)]):
+        mon.cid = cid
         cell = cells[int(rng.integers(len(cells)))]
         spec = layouts.make_spec(rng, cell, max_n=5, max_d=4)
         spec.pop('key_order', None)
@@ -196,6 +200,10 @@ def run(ctx):
                       want=want_ana, delim=delim, warnings=o.warnings)
         ctx.case_done(class_key=('file', cell[0], 'stext' if use_stext else '-', 'ana-' + spec.get('analysis_offsets', 'none')
                                  if use_ana else 'noana'), nontrivial=True, distinct_key=core.digest(raw))
+
+    # the repository's own reader tests (many hand-written TEXT segments) as a workload under the in-situ monitor
+    suite_workload.run_repo_suite(ctx, mon, modules=('test_io.py',))
+    mon.detach()
 
 
 def collections_counter():
